@@ -6,7 +6,7 @@ import evmref as R
 PID = "C03"
 LEAN_TARGETS = ["EtkVerif.Props.C03"]
 RULE = ("byte strings of complete instructions over the opcodes the Cancun table defines: every single instruction exhaustively "
-        "(149 opcodes; pushN with all-zero, leading-zero, all-ff and random immediates), random streams of 1..300 instructions, half of them written to the disassembler in pieces of 1..40 bytes with the listing collected after every write; "
+        "(149 opcodes; pushN with all-zero, leading-zero, all-ff and random immediates), random streams of 1..300 instructions, half of them written to the disassembler in pieces of 1..40 bytes with the listing collected after every write, plus n/4 streams read by a client that takes only 1-3 instructions from each ops() iterator before dropping it; "
         "disassembled by the real Disassembler, printed as `mnemonic[ 0ximm]` per line, assembled by the real Ingest; the bytes must "
         "come back and the offsets must be the prefix sums. non-trivial = at least one push with a leading-zero immediate or more "
         "than 3 instructions")
@@ -53,6 +53,19 @@ def cases(rng, tier):
             cs.append({"line": f"lst {bs.hex()} {'.'.join(map(str, sizes))}", "tags": ["stream", "pieces"]})
         else:
             cs.append({"line": f"lst {bs.hex()}", "tags": ["stream"]})
+    # a client that takes one / a few instructions from each `ops()` iterator and drops it (peeking, `take(n)`, `break`
+    # out of a loop) instead of draining it: offsets must still be the running byte count
+    for _ in range(n // 4):
+        k = rng.choice([2, 3, 5, 10, 30])
+        bs = b"".join(enc(rng.choice(ops), rng, rng.randrange(5)) for _ in range(k))
+        sizes = "-"
+        if rng.random() < 0.5:
+            zs, left = [], len(bs)
+            while left > 0 and len(zs) < 40:
+                z = rng.choice([1, 2, 3, 5, 8, 13, 33, rng.randrange(1, 40)])
+                zs.append(z); left -= z
+            sizes = ".".join(map(str, zs))
+        cs.append({"line": f"lst {bs.hex()} {sizes} {rng.choice([1, 1, 2, 3])}", "tags": ["stream", "partial-iteration"]})
     return cs
 
 
